@@ -106,6 +106,9 @@ def keys(ctx, rule='sort-key-matches-rule-name'):
             continue
         rets = [x for x in fn.walk() if x['k'] == 'ReturnStmt']
         sigs = set(key_signature(fn, sym(fn, x['value'])) for x in rets)
+        if not is_c:
+            # the real part of a real value is the value itself
+            sigs = set((sg, ab, 'value' if comp_ == 're' else comp_) for (sg, ab, comp_) in sigs)
         ok = sigs == {want}
         ctx.check(ok, rule, inst, fn.qname,
                   'key = %s%s(%s)' % ('-' if want[0] == '-' else '', '|.|' if want[1] else '', want[2]) if ok else
